@@ -188,7 +188,8 @@ func orderList(seed int64, shard, n int) []EvalCase {
 		if b == "lpad" || b == "rpad" || b == "now" || b == "toDay" {
 			continue
 		}
-		for _, tmpl := range []string{"%s(s0, 'a')", "%s('abc', s1)", "%s(s0, '^a')", "%s(n0, 2)", "%s(2, n1)", "%s(s0)", "%s(n0)", "%s(t0)", "%s(arr, 'k')", "%s(strs, s0)", "%s(s0, 'a', 'b')", "%s(s0, 1, 2)"} {
+		for _, tmpl := range []string{"%s(s0, 'a')", "%s('abc', s1)", "%s(s0, '^a')", "%s(n0, 2)", "%s(2, n1)", "%s(s0)", "%s(n0)", "%s(t0)", "%s(arr, 'k')", "%s(strs, s0)", "%s(s0, 'a', 'b')", "%s(s0, 1, 2)",
+			"%s(m, ',')", "%s(m)", "%s(tm, 'k')", "%s(ms, 'name')", "%s(st)", "%s(this, s0)", "%s(m.b, n0)", "%s(arr)", "%s(m, m)"} {
 			for _, d := range datas {
 				out = append(out, EvalCase{Src: fmt.Sprintf(tmpl, b), Data: d})
 			}
@@ -309,7 +310,8 @@ func runC08(w *core.W) {
 			pool = append(pool, b+"(s0, 'x', 7)", b+"(s0, 'x', n0)")
 			continue
 		}
-		pool = append(pool, b+"(n0)", b+"(s0, s1)", b+"(n0, n1)", b+"(t0)", b+"()", b+"(s0, n0, n1)", b+"(arr, s0)", b+"(t0, 1, 2, 3)", b+"(t0, 'UTC')", b+"(2020, 2, 30)")
+		pool = append(pool, b+"(n0)", b+"(s0, s1)", b+"(n0, n1)", b+"(t0)", b+"()", b+"(s0, n0, n1)", b+"(arr, s0)", b+"(t0, 1, 2, 3)", b+"(t0, 'UTC')", b+"(2020, 2, 30)",
+			b+"(m, ',')", b+"(m)", b+"(tm, 'k')", b+"(ms, 'name')", b+"(this, s0)", b+"(m, m)")
 	}
 	for i := 0; i < w.Pick(1500, 4000); i++ {
 		pool = append(pool, ref.Print(NoSelfStore(cfg.Node(r, 1+r.Intn(5)))))
